@@ -246,6 +246,16 @@ def same(im, mo):
     return abs(a - b_) <= Fraction(REL) * max(abs(b_), Fraction(1, 10 ** 6))
 
 
+def _history_worker(arg):
+    """the same cases again, one after the other at ONE path in ONE process (see c03)"""
+    path, cs = arg
+    out = []
+    for c in cs:
+        r = _worker((path, c))
+        out.append({"cks": r["cks"], "fails": r["fails"]})
+    return out
+
+
 def run(ctx):
     import common
     cases = gen_cases(ctx)
@@ -275,6 +285,20 @@ def run(ctx):
         for f in r["fails"]:
             ctx.fail({"n": c["n"], "pixels": c["pixels"], "symm": c["symm"], "weights": c["weights"], "chunk": c["chunk"],
                       "options": f["options"], "form": f["form"], "window": f["window"]}, f, None)
+    # history pass: a sample of the cases, grouped by bin count, replayed in one process on one path
+    pick = sorted(ctx.rng.sample(range(len(cases)), min(len(cases), 32 if ctx.tier == "quick" else 128)), key=lambda k: (cases[k]["n"], k))
+    groups = [pick[i::4] for i in range(4)]
+    with ProcessPoolExecutor(max_workers=4) as ex:
+        hres = list(ex.map(_history_worker, [(str(ctx.tmp / f"hist{g}.cool"), [cases[k] for k in grp]) for g, grp in enumerate(groups)]))
+    for grp, hr in zip(groups, hres):
+        for pos, (k, r2) in enumerate(zip(grp, hr)):
+            c = cases[k]
+            ctx.case({"history_of": k, "pos": pos}, nontrivial=pos > 0 and bool(c["pixels"]), kind="history:same-path")
+            if r2["cks"] != results[k]["cks"] or r2["fails"]:
+                ctx.fail({"n": c["n"], "pixels": c["pixels"], "symm": c["symm"], "weights": c["weights"], "chunk": c["chunk"], "options": c["options"],
+                          "history": f"case {pos + 1} of {len(grp)} created and queried at the same path in one process",
+                          "previous_case_at_path": {kk: cases[grp[pos - 1]][kk] for kk in ("n", "pixels", "weights")} if pos else None},
+                         {"detail": "balanced queries differ from the same cooler stored at a fresh path", "fails": r2["fails"][:2]}, None)
     # source pin: the three conventional divisive names
     import cooler.api as api
     ctx.case({"fn": "_4DN_DIVISIVE_WEIGHTS"}, kind="pin")
